@@ -70,6 +70,7 @@ pub struct GenCfg {
     /// by construction; addresses mostly in bounds
     pub exec: bool,
     pub max_funcs: usize,
+    pub min_funcs: usize,
     pub max_ops: usize,
     /// 0 never, 1 by choice, 2 always
     pub names: u8,
@@ -93,6 +94,7 @@ impl GenCfg {
         GenCfg {
             exec: false,
             max_funcs: 12,
+            min_funcs: 0,
             max_ops: 40,
             names: 1,
             customs: 1,
@@ -109,6 +111,7 @@ impl GenCfg {
         GenCfg {
             exec: true,
             max_funcs: 8,
+            min_funcs: 0,
             max_ops: 40,
             names: 1,
             customs: 1,
@@ -1682,8 +1685,14 @@ pub fn generate(data: &[u8], cfg: &GenCfg) -> Generated {
     let mut imports: Vec<(String, String, ImportG)> = Vec::new();
     let n_imports = ch.below(6);
     for i in 0..n_imports {
-        let module = if ch.bool() { "env".to_string() } else { "host".to_string() };
-        let name = gen_name(ch, "imp", i);
+        let mut module = if ch.bool() { "env".to_string() } else { "host".to_string() };
+        let mut name = gen_name(ch, "imp", i);
+        // duplicate (module, field) pairs are legal and do occur
+        if !imports.is_empty() && ch.chance(1, 6) {
+            let k = ch.below(imports.len());
+            module = imports[k].0.clone();
+            name = imports[k].1.clone();
+        }
         let kind = ch.below(4);
         match kind {
             0 => {
@@ -1724,7 +1733,7 @@ pub fn generate(data: &[u8], cfg: &GenCfg) -> Generated {
     let n_imp_globals = env.globals.len();
 
     // 4. local entity declarations
-    let n_local_funcs = ch.below(cfg.max_funcs + 1);
+    let n_local_funcs = cfg.min_funcs + ch.below(cfg.max_funcs + 1 - cfg.min_funcs);
     for _ in 0..n_local_funcs {
         env.funcs.push(ch.below(env.types.len()) as u32);
     }
@@ -2234,6 +2243,15 @@ pub fn generate(data: &[u8], cfg: &GenCfg) -> Generated {
         }
         if ch.chance(2, 3) && n_local_funcs > 0 {
             let mut inm = we::IndirectNameMap::new();
+            // parameter names of imported functions (what wat2wasm emits);
+            // nothing is emitted for them, but they must not disturb the rest
+            for f in 0..env.n_imp_funcs {
+                let np = env.sig(f as u32).params.len();
+                if np > 0 && ch.chance(1, 3) {
+                    let nm = pick_names(ch, np, "iparam");
+                    inm.append(f as u32, &nm);
+                }
+            }
             for i in 0..n_local_funcs {
                 let fidx = env.n_imp_funcs + i;
                 let np = env.sig(fidx as u32).params.len();
